@@ -1,9 +1,9 @@
 SPECIFICATION Spec
 CONSTANTS
-  Cfg <- CfgSmall
+  Cfg <- CfgPoint
   Feeders <- F2
   MaxWrites = 1
-  MaxUpd = 1
+  MaxUpd = 2
   MaxGets = 1
   DVals <- DV
   LVals <- LV
@@ -13,4 +13,3 @@ CONSTANTS
   CloseWaits = TRUE
 INVARIANTS InBounds AbsOK Consistent Sub GetterOK ClosedErr NoPanic
 PROPERTIES NoPublishAfterClose WriteReturns CloseReturns AllDelivered
-
